@@ -135,7 +135,7 @@ Definition enum_path (g : graph) (p : ppat value) (r : row) (used : list N)
     else []) (g_nodes g).
 
 (* the comma-separated paths of one MATCH share the set of used relationships *)
-Fixpoint enum_pats (g : graph) (ps : list (ppat value)) (r : row) (used : list N)
+Fixpoint enum_pats (iso : bool) (g : graph) (ps : list (ppat value)) (r : row) (used : list N)
   : list (list path_asg * row * list N) :=
   match ps with
   | [] => [([], r, used)]
@@ -143,18 +143,18 @@ Fixpoint enum_pats (g : graph) (ps : list (ppat value)) (r : row) (used : list N
       flat_map (fun m : path_asg * row * list N =>
                   map (fun m' : list path_asg * row * list N =>
                          (fst (fst m) :: fst (fst m'), snd (fst m'), snd m'))
-                      (enum_pats g rest (snd (fst m)) (snd m)))
+                      (enum_pats iso g rest (snd (fst m)) (if iso then snd m else used)))
                (enum_path g p r used)
   end.
 
-Definition match_rows (g : graph) (ps : list (ppat value)) (r : row) : list row :=
-  map (fun m : list path_asg * row * list N => snd (fst m)) (enum_pats g ps r []).
+Definition match_rows (iso : bool) (g : graph) (ps : list (ppat value)) (r : row) : list row :=
+  map (fun m : list path_asg * row * list N => snd (fst m)) (enum_pats iso g ps r []).
 
 (* ---------- evaluating the inline property maps ---------- *)
 Section Resolve.
-  Variables (g : graph) (pe : penv) (r : row).
+  Variables (cf : cfg) (g : graph) (pe : penv) (r : row).
   Definition resolve_props (l : list (N * expr)) : outcome (list (N * value)) :=
-    omap (fun kv : N * expr => obind (eval_expr g pe r (snd kv)) (fun v => Ok (fst kv, v))) l.
+    omap (fun kv : N * expr => obind (eval_expr cf g pe r (snd kv)) (fun v => Ok (fst kv, v))) l.
   Definition resolve_npat (np : npat expr) : outcome (npat value) :=
     obind (resolve_props (np_props np)) (fun ps => Ok (NP (np_var np) (np_labels np) ps)).
   Definition resolve_rpat (rp : rpat expr) : outcome (rpat value) :=
@@ -208,19 +208,28 @@ Definition best (keep_first : comparison -> bool) (vs : list value) : value :=
   | v :: r => fold_left (fun acc x => if keep_first (ord_cmp acc x) then acc else x) r v
   end.
 
-Definition eval_agg (g : graph) (pe : penv) (a : aggop) (distinct : bool) (arg : option expr)
+Fixpoint is_entity (v : value) : bool :=
+  match v with
+  | VNode _ | VRel _ => true
+  | VList l => existsb is_entity l
+  | _ => false
+  end.
+
+Definition eval_agg (cf : cfg) (g : graph) (pe : penv) (a : aggop) (distinct : bool) (arg : option expr)
            (rows : list row) : outcome value :=
   match arg with
   | None => Ok (VInt (nat_z (length rows)))
   | Some e =>
-      obind (omap (fun r => eval_expr g pe r e) rows) (fun vs =>
+      obind (omap (fun r => eval_expr cf g pe r e) rows) (fun vs =>
         let nn := filter (fun v => negb (value_eqb v VNull)) vs in
         let xs := if distinct then dedup_by value_eqb nn else nn in
         match a with
         | GCount => Ok (VInt (nat_z (length xs)))
         | GSum => sum_values xs
-        | GMin => Ok (best (fun c => match c with Gt => false | _ => true end) xs)
-        | GMax => Ok (best (fun c => match c with Lt => false | _ => true end) xs)
+        | GMin => if existsb is_entity xs then ErrT
+                  else Ok (best (fun c => match c with Gt => false | _ => true end) xs)
+        | GMax => if existsb is_entity xs then ErrT
+                  else Ok (best (fun c => match c with Lt => false | _ => true end) xs)
         | GCollect => Ok (VList xs)
         end)
   end.
@@ -238,22 +247,25 @@ Fixpoint group_rows (l : list (list value * row)) : list (list value * list row)
 (* one projected entry: the row ORDER BY may look at, and the projected row *)
 Definition entry := (row * row)%type.
 
-Definition project_plain (g : graph) (pe : penv) (p : proj) (rows : list row) : outcome (list entry) :=
+Definition project_plain (cf : cfg) (g : graph) (pe : penv) (p : proj) (rows : list row) : outcome (list entry) :=
   omap (fun r =>
           obind (omap (fun ia : item * N =>
                          match fst ia with
-                         | IExpr e => obind (eval_expr g pe r e) (fun v => Ok (snd ia, v))
+                         | IExpr e => obind (eval_expr cf g pe r e) (fun v => Ok (snd ia, v))
                          | IAgg _ _ _ => ErrT
                          end) (p_items p))
                 (fun out => Ok ((if p_distinct p then out else out ++ r), out))) rows.
 
-Definition project_agg (g : graph) (pe : penv) (p : proj) (rows : list row) : outcome (list entry) :=
+Definition project_agg (cf : cfg) (g : graph) (pe : penv) (empty_ok : bool) (p : proj) (rows : list row) : outcome (list entry) :=
   let keys := filter (fun ia : item * N => negb (is_agg (fst ia))) (p_items p) in
   obind (omap (fun r =>
                  obind (omap (fun ia : item * N =>
-                                match fst ia with IExpr e => eval_expr g pe r e | _ => ErrT end) keys)
+                                match fst ia with IExpr e => eval_expr cf g pe r e | _ => ErrT end) keys)
                        (fun k => Ok (k, r))) rows) (fun keyed =>
-    let groups := match keys with [] => [([], rows)] | _ => group_rows keyed end in
+    let groups := match keys with
+                  | [] => if empty_ok then [([], rows)] else match rows with [] => [] | _ => [([], rows)] end
+                  | _ => group_rows keyed
+                  end in
     omap (fun kg : list value * list row =>
             obind ((fix go (items : list (item * N)) (ks : list value) : outcome row :=
                       match items with
@@ -264,7 +276,7 @@ Definition project_agg (g : graph) (pe : penv) (p : proj) (rows : list row) : ou
                           | [] => ErrT
                           end
                       | (IAgg op d arg, a) :: rest =>
-                          obind (eval_agg g pe op d arg (snd kg)) (fun v =>
+                          obind (eval_agg cf g pe op d arg (snd kg)) (fun v =>
                           obind (go rest ks) (fun o => Ok ((a, v) :: o)))
                       end) (p_items p) (fst kg))
                   (fun out => Ok (out, out))) groups).
@@ -292,14 +304,14 @@ Definition key_le (dirs : list bool) (a b : keyed) : bool :=
   match key_cmp dirs (fst a) (fst b) with Gt => false | _ => true end.
 
 (* projection, DISTINCT, ORDER BY: the projected rows, stably sorted, with their sort keys *)
-Definition project_sorted (g : graph) (pe : penv) (p : proj) (rows : list row) : outcome (list keyed) :=
+Definition project_sorted (cf : cfg) (g : graph) (pe : penv) (empty_ok : bool) (p : proj) (rows : list row) : outcome (list keyed) :=
   obind (if existsb (fun ia : item * N => is_agg (fst ia)) (p_items p)
-         then project_agg g pe p rows else project_plain g pe p rows) (fun es =>
+         then project_agg cf g pe empty_ok p rows else project_plain cf g pe p rows) (fun es =>
     let es := if p_distinct p
               then dedup_by (fun a b : entry => row_vals_eqb (map snd (snd a)) (map snd (snd b))) es
               else es in
     obind (omap (fun e : entry =>
-                   obind (omap (fun ob : expr * bool => eval_expr g pe (fst e) (fst ob)) (p_order p))
+                   obind (omap (fun ob : expr * bool => eval_expr cf g pe (fst e) (fst ob)) (p_order p))
                          (fun k => Ok (k, snd e))) es) (fun ks =>
       Ok (sort_by (key_le (map snd (p_order p))) ks))).
 
@@ -330,66 +342,67 @@ Record squery := SQ { q_clauses : list clause; q_ret : proj }.
 (* q_parts is non-empty; more than one part is a UNION (ALL when q_all) *)
 Record query := Q { q_parts : list squery; q_all : bool }.
 
-Definition filter_rows (g : graph) (pe : penv) (w : option expr) (rows : list row) : outcome (list row) :=
+Definition filter_rows (cf : cfg) (g : graph) (pe : penv) (w : option expr) (rows : list row) : outcome (list row) :=
   match w with
   | None => Ok rows
   | Some e =>
-      obind (omap (fun r => obind (eval_pred g pe r e) (fun b => Ok (b, r))) rows) (fun brs =>
+      obind (omap (fun r => obind (eval_pred cf g pe r e) (fun b => Ok (b, r))) rows) (fun brs =>
         Ok (map snd (filter fst brs)))
   end.
 
-Definition eval_match (g : graph) (pe : penv) (opt : bool) (pats : list (ppat expr)) (w : option expr)
+Definition eval_match (cf : cfg) (g : graph) (pe : penv) (opt : bool) (pats : list (ppat expr)) (w : option expr)
            (r : row) : outcome (list row) :=
-  obind (omap (resolve_ppat g pe r) pats) (fun vps =>
-  obind (filter_rows g pe w (match_rows g vps r)) (fun kept =>
+  obind (omap (resolve_ppat cf g pe r) pats) (fun vps =>
+  obind (filter_rows cf g pe w (match_rows (cf_path_iso cf) g vps r)) (fun kept =>
     match opt, kept with
     | true, [] => Ok [null_pad (flat_map ppat_vars pats) r]
     | _, _ => Ok kept
     end)).
 
-Definition eval_clause (g : graph) (pe : penv) (c : clause) (rows : list row) : outcome (list row) :=
+Definition eval_clause (cf : cfg) (g : graph) (pe : penv) (c : clause) (rows : list row) : outcome (list row) :=
   match c with
   | CMatch opt pats w =>
-      obind (omap (eval_match g pe opt pats w) rows) (fun rs => Ok (concat rs))
+      obind (omap (eval_match cf g pe opt pats w) rows) (fun rs => Ok (concat rs))
   | CUnwind e x =>
       obind (omap (fun r =>
-                     obind (eval_expr g pe r e) (fun v =>
+                     obind (eval_expr cf g pe r e) (fun v =>
                        match v with
                        | VList l => Ok (map (fun y => (x, y) :: r) l)
                        | VNull => Ok []
                        | _ => ErrT
                        end)) rows) (fun rs => Ok (concat rs))
   | CWith p w =>
-      obind (project_sorted g pe p rows) (fun ks =>
+      obind (project_sorted cf g pe (cf_with_empty_agg cf) p rows) (fun ks =>
         let truncates := negb (Nat.leb (length (window p ks)) (length ks) && Nat.leb (length ks) (length (window p ks))) in
         if truncates && has_tie (map snd (p_order p)) ks then Undet
-        else filter_rows g pe w (map snd (window p ks)))
+        else filter_rows cf g pe w (map snd (window p ks)))
   end.
 
-Fixpoint eval_clauses (g : graph) (pe : penv) (cs : list clause) (rows : list row) : outcome (list row) :=
+Fixpoint eval_clauses (cf : cfg) (g : graph) (pe : penv) (cs : list clause) (rows : list row) : outcome (list row) :=
   match cs with
   | [] => Ok rows
-  | c :: rest => obind (eval_clause g pe c rows) (eval_clauses g pe rest)
+  | c :: rest => obind (eval_clause cf g pe c rows) (eval_clauses cf g pe rest)
   end.
 
 (* the answer of one query part before SKIP/LIMIT: sort keys and output rows (column values) *)
 Definition okeyed := (list value * list value)%type.
 
-Definition eval_squery_sorted (g : graph) (pe : penv) (s : squery) : outcome (list okeyed) :=
-  obind (eval_clauses g pe (q_clauses s) [[]]) (fun rows =>
-  obind (project_sorted g pe (q_ret s) rows) (fun ks =>
+Definition eval_squery_sorted (cf : cfg) (g : graph) (pe : penv) (s : squery) : outcome (list okeyed) :=
+  obind (eval_clauses cf g pe (q_clauses s) [[]]) (fun rows =>
+  obind (project_sorted cf g pe true (q_ret s) rows) (fun ks =>
     Ok (map (fun k : keyed => (fst k, map snd (snd k))) ks))).
 
 Definition table := list (list value).
 
-Definition eval_squery (g : graph) (pe : penv) (s : squery) : outcome table :=
-  obind (eval_squery_sorted g pe s) (fun ks => Ok (map snd (window (q_ret s) ks))).
+Definition eval_squery (cf : cfg) (g : graph) (pe : penv) (s : squery) : outcome table :=
+  obind (eval_squery_sorted cf g pe s) (fun ks => Ok (map snd (window (q_ret s) ks))).
 
-Definition eval_query_env (g : graph) (pe : penv) (q : query) : outcome table :=
-  obind (omap (eval_squery g pe) (q_parts q)) (fun ts =>
+Definition eval_query_cfg (cf : cfg) (g : graph) (pe : penv) (q : query) : outcome table :=
+  obind (omap (eval_squery cf g pe) (q_parts q)) (fun ts =>
     let t := concat ts in
     Ok (if q_all q then t else match q_parts q with [_] => t | _ => dedup_by row_vals_eqb t end)).
 
+Definition eval_query_env (g : graph) (pe : penv) (q : query) : outcome table := eval_query_cfg ref_cfg g pe q.
 Definition eval_query (g : graph) (q : query) : outcome table := eval_query_env g [] q.
 
 (* ---------- parameter inlining over queries (C35) ---------- *)
@@ -485,8 +498,8 @@ Definition squery_collects (s : squery) : bool :=
 
 Definition expected_len (p : proj) (n : nat) : nat := length (window p (repeat tt n)).
 
-Definition check_squery (g : graph) (pe : penv) (s : squery) (o : table) : outcome bool :=
-  obind (eval_squery_sorted g pe s) (fun ks =>
+Definition check_squery (cf : cfg) (g : graph) (pe : penv) (s : squery) (o : table) : outcome bool :=
+  obind (eval_squery_sorted cf g pe s) (fun ks =>
     let nrm := if squery_collects s then map (map norm_value) else (fun t : table => t) in
     let ks := map (fun k : okeyed => (fst k, if squery_collects s then map norm_value (snd k) else snd k)) ks in
     let o := nrm o in
@@ -495,32 +508,83 @@ Definition check_squery (g : graph) (pe : penv) (s : squery) (o : table) : outco
 
 Definition bag_eqb (a b : table) : bool := Nat.eqb (length a) (length b) && sub_bag a b.
 
-Definition check_rows (g : graph) (pe : penv) (q : query) (o : table) : outcome bool :=
+Definition check_rows (cf : cfg) (g : graph) (pe : penv) (q : query) (o : table) : outcome bool :=
   match q_parts q with
-  | [s] => check_squery g pe s o
+  | [s] => check_squery cf g pe s o
   | _ =>
-      obind (eval_query_env g pe q) (fun t =>
+      obind (eval_query_cfg cf g pe q) (fun t =>
         if existsb squery_collects (q_parts q)
         then Ok (bag_eqb (map (map norm_value) o) (map (map norm_value) t))
         else Ok (bag_eqb o t))
   end.
 
-(* classes of input on which the pinned engine is known to deviate; see known_findings.txt *)
-Definition Known_C01 (c : case) : bool := false.
+(* ---------- known findings (known_findings.txt) ----------
+   Two kinds.  (1) Deviations the model can follow: [eng_cfg]; a case that fails against the
+   reference but agrees with [eng_cfg] is in a known class.  (2) Syntactic classes on which the
+   engine's behaviour is not modelled: such a case is not compared at all. *)
+Definition opt_exists {A} (f : A -> bool) (o : option A) : bool := match o with Some x => f x | None => false end.
 
-Definition check_case (c : case) : bool :=
-  Known_C01 c ||
+Fixpoint expr_vars (e : expr) : list N :=
+  match e with
+  | ELit _ | EParam _ => []
+  | EVar x | EProp x _ => [x]
+  | ECmp _ a b | EAnd a b | EOr a b | EXor a b | EArith _ a b | EIn a b => expr_vars a ++ expr_vars b
+  | ENot a | EIsNull a | EIsNotNull a | ENeg a => expr_vars a
+  | EList l | EFn _ l => flat_map expr_vars l
+  end.
+
+Definition ppat_varlen {A} (p : ppat A) : bool :=
+  existsb (fun s : rpat A * npat A => match rp_len (fst s) with Some _ => true | None => false end) (snd p).
+
+(* variable-length relationship patterns: the engine answers node reachability (one row per
+   distinct end node, breadth first), not one row per trail *)
+Definition known_varlen (s : squery) : bool :=
+  existsb (fun c => match c with CMatch _ ps _ => existsb ppat_varlen ps | _ => false end) (q_clauses s).
+
+(* OPTIONAL MATCH ... WHERE: a predicate that mentions a variable bound before the OPTIONAL
+   MATCH is applied to the incoming rows (or dropped) instead of deciding whether the optional
+   part matched; and the WHERE of a MATCH that follows an OPTIONAL MATCH, when it mentions a
+   variable the OPTIONAL MATCH introduced, is not applied after the null padding *)
+Fixpoint known_optwhere_from (bound optvars : list N) (cs : list clause) : bool :=
+  match cs with
+  | [] => false
+  | CMatch true ps w :: rest =>
+      opt_exists (fun e => existsb (fun x => memN x bound) (expr_vars e)) w
+      || known_optwhere_from (flat_map ppat_vars ps ++ bound) (flat_map ppat_vars ps ++ optvars) rest
+  | CMatch false ps w :: rest =>
+      opt_exists (fun e => existsb (fun x => memN x optvars) (expr_vars e)) w
+      || known_optwhere_from (flat_map ppat_vars ps ++ bound) optvars rest
+  | CUnwind _ x :: rest => known_optwhere_from (x :: bound) optvars rest
+  | CWith p _ :: rest => known_optwhere_from (map snd (p_items p)) [] rest
+  end.
+
+Definition known_optwhere (s : squery) : bool := known_optwhere_from [] [] (q_clauses s).
+
+Definition Known_syntactic (q : query) : bool :=
+  existsb (fun s => known_varlen s || known_optwhere s) (q_parts q).
+
+Definition check_with (cf : cfg) (c : case) : bool :=
   match c_obs c with
   | ObsPanic => false
   | ObsErr =>
-      match eval_query_env (c_graph c) (c_params c) (c_query c) with
+      match eval_query_cfg cf (c_graph c) (c_params c) (c_query c) with
       | Ok _ => negb (c_must_ok c)
       | _ => true
       end
   | ObsOk o =>
-      match check_rows (c_graph c) (c_params c) (c_query c) o with
+      match check_rows cf (c_graph c) (c_params c) (c_query c) o with
       | Ok b => b
       | ErrA => false
       | ErrT | Undet => true
       end
   end.
+
+(* the case is in a known class: not modelled, or it is answered as [eng_cfg] says and not
+   as the reference says *)
+Definition Known_C01 (c : case) : bool :=
+  match c_obs c with
+  | ObsPanic => false
+  | _ => Known_syntactic (c_query c) || (negb (check_with ref_cfg c) && check_with eng_cfg c)
+  end.
+
+Definition check_case (c : case) : bool := check_with ref_cfg c || Known_C01 c.
